@@ -24,3 +24,52 @@ Proof. reflexivity. Qed.
 
 Theorem C20_labels : metric_labels = ["direction"; "proxy.Name"; "proxy.Listen"; "proxy.Upstream"]%string.
 Proof. reflexivity. Qed.
+
+(** ---- which series the bytes go to (labels). [Model.Metrics]: link.Start takes the label values
+    from the proxy when the link starts ([metric_labels] above is that list, regenerated from
+    link.go); the counters are an append-only log. *)
+From TP Require Import Model.Metrics Proofs.MetricsProofs.
+
+(** a connection that starts takes the proxy's name, listen address and upstream as they are now *)
+Theorem C20_start_takes_current_labels : forall s c p listen up,
+  zassoc p (m_cfg s) = Some (listen, up) ->
+  zassoc c (m_open (m_step s (MStart c p))) = Some (listen, p, up).
+Proof. exact start_takes_current_labels. Qed.
+
+(** ... and keeps them whatever happens before it ends: in-place updates of its proxy, other
+    proxies, other connections *)
+Theorem C20_labels_fixed_at_start : forall s e c lab,
+  zassoc c (m_open s) = Some lab ->
+  (forall p, e <> MStart c p) -> (forall a b c' d, e <> MEnd c a b c' d) ->
+  zassoc c (m_open (m_step s e)) = Some lab.
+Proof. exact labels_fixed_at_start. Qed.
+
+(** when it ends, its four counts are added to exactly the four series with those labels; every
+    series with other labels is untouched *)
+Theorem C20_end_exact : forall s c urx utx drx dtx lab,
+  zassoc c (m_open s) = Some lab ->
+  let s' := m_step s (MEnd c urx utx drx dtx) in
+  counter s' (false, false, lab) = counter s (false, false, lab) + urx /\
+  counter s' (true, false, lab) = counter s (true, false, lab) + utx /\
+  counter s' (false, true, lab) = counter s (false, true, lab) + drx /\
+  counter s' (true, true, lab) = counter s (true, true, lab) + dtx /\
+  (forall k, snd k <> lab -> counter s' k = counter s k).
+Proof. exact end_exact. Qed.
+
+(** no other event moves any counter; no connection is counted twice; no series ever decreases *)
+Theorem C20_only_end_counts : forall s e k,
+  (forall c a b c' d, e <> MEnd c a b c' d) -> counter (m_step s e) k = counter s k.
+Proof. exact only_end_counts. Qed.
+
+Theorem C20_counted_once : forall s c a b c' d a2 b2 c2 d2 k,
+  counter (m_step (m_step s (MEnd c a b c' d)) (MEnd c a2 b2 c2 d2)) k = counter (m_step s (MEnd c a b c' d)) k.
+Proof. exact counted_once. Qed.
+
+Theorem C20_never_decreases : forall h s k, Forall ev_nonneg h -> counter s k <= counter (fold_left m_step h s) k.
+Proof. exact run_monotone. Qed.
+
+(** non-vacuity: an update between two connections splits their bytes over two label sets *)
+Example C20_labels_example :
+  let s := m_run [MConfig 0 7000 9000; MStart 1 0; MEnd 1 10 10 10 10; MConfig 0 7000 9001; MStart 2 0; MEnd 2 5 5 5 5] in
+  counter s (false, false, (7000, 0, 9000)) = 10 /\ counter s (false, false, (7000, 0, 9001)) = 5.
+Proof. vm_compute. split; reflexivity. Qed.
